@@ -27,7 +27,7 @@ type mnode struct {
 	Share bool `json:"shared_instances,omitempty"`
 	// Form: how a nested Stack is stored in its parent ("" native, "alias", "ptr", "ptr-alias")
 	Form string `json:"stored_as,omitempty"`
-	// Lock: 1 mutex enabled, 2 read-only, 3 both (set once the content is in place)
+	// Lock: bit 1 mutex enabled, bit 2 read-only, bit 4 no-nesting (all set once the content is in place)
 	Lock int `json:"lock,omitempty"`
 }
 
@@ -139,6 +139,9 @@ func (n mnode) buildWith(shared map[string]any) (out any) {
 	fill(s, vals, fillMode(n.String()))
 	if n.Lock&1 != 0 {
 		s.SetMutex()
+	}
+	if n.Lock&4 != 0 {
+		s.SetNoNesting(true) // what is already held stays, and is unmarshalled like anywhere else
 	}
 	if n.Lock&2 != 0 {
 		s.SetReadOnly(true)
@@ -583,6 +586,16 @@ func c04Trees(c *Ctx) []mnode {
 			st := d1[i]
 			st.Lock = lock
 			trees = append(trees, st, mnode{T: "stack", Kind: kindNames[(i+lock)%5], Kids: []mnode{leaves[0], st}}, mnode{T: "stack", Kind: kindNames[(i+lock+1)%5], Lock: lock, Kids: []mnode{{T: "cond", Kw: "lk", Op: 2, Kids: []mnode{st}}, st}})
+		}
+	}
+	// no-nesting switched on afterwards, on stacks that hold Conditions (and Stacks): the root, a nested stack,
+	// a Condition's expression
+	for _, lock := range []int{4, 5, 6} {
+		holder := mnode{T: "stack", Kind: "AND", Lock: lock, Kids: []mnode{leaves[0], conds[0], conds[3]}}
+		holder2 := mnode{T: "stack", Kind: "LIST", Lock: lock, Kids: []mnode{conds[1], {T: "stack", Kind: "OR", Kids: []mnode{leaves[3]}}, leaves[6]}}
+		for _, k := range kindNames {
+			trees = append(trees, mnode{T: "stack", Kind: k, Lock: lock, Kids: []mnode{conds[0], leaves[0]}}, mnode{T: "stack", Kind: k, Kids: []mnode{holder, leaves[1]}},
+				mnode{T: "stack", Kind: k, Kids: []mnode{{T: "cond", Kw: "nn", Op: 2, Kids: []mnode{holder}}, holder2}}, mnode{T: "stack", Kind: k, Lock: lock, Kids: []mnode{{T: "cond", Kw: "nn2", Op: 3, Kids: []mnode{holder2}}}})
 		}
 	}
 	// one instance stored in several places: as siblings, in two branches, below a Condition and next to it
